@@ -37,6 +37,12 @@ def evaluate(sid, patch, demo, note, prop, checks, tier, jobs):
     shutil.rmtree(out, ignore_errors=True)
     r = sh('git -C /repo worktree add -q --detach %s HEAD' % wt)
     assert r.returncode == 0, r.stderr
+    if not os.path.exists(note):
+        old = os.path.join(VERIF, 'seeded', sid, 'meta.json')
+        text = json.load(open(old)).get('note', '') if os.path.exists(old) \
+            else ''
+        note = '/tmp/se_note_%s.txt' % sid
+        open(note, 'w').write(text)
     meta = {'seed': sid, 'property': prop, 'note': open(note).read(),
             'ran': []}
     try:
